@@ -143,7 +143,10 @@ def _case(check: Check, case, record=False):
             base = {"kind": "c02_matrix", "formula": formula, "efr": efr, "layout": layout, "terms": [[list(t.factors), list(t.lits)] for t in fam],
                     "a": [float(i) * 1.25 + 0.5 for i in range(n)], "b": [(float(3 * i + 1) % 7) * 0.75 - 1.3 for i in range(n)]}
             other = "permuted" if index != "permuted" else "nonunique"
+            ints = {"a": [float(3 * i - 4) for i in range(n)], "b": [float((5 * i + 2) % 7 - 3) for i in range(n)]}
             for extra in ({"output": "pandas", "index": other}, {"output": "numpy", "index": other}, {"output": "sparse", "index": index},
+                          {"output": "pandas", "index": index, **ints, "dtypes": {"a": "int64", "b": "int32"}}, {"output": "sparse", **ints, "dtypes": {"a": "int16", "b": "int8"}},
+                          {"output": "numpy", **ints, "dtypes": {"a": "float32", "b": "int64"}},
                           {"output": "numpy", "materializer": "narwhals"}, {"output": "sparse", "materializer": "narwhals"}):
                 bad = replays.run({**base, **extra})
                 check.obligation("matrix.other_branches/ground", "refuted" if bad else "ground")
